@@ -67,7 +67,8 @@ def main():
     # demos written for a scratch worktree may assert the worktree path; run a copy with that path rewritten
     demo_src = open(demo).read()
     demo_src = re.sub(r"/tmp/wt/[A-Za-z0-9_]+", REPO, demo_src)
-    tmp_demo = "/tmp/_seed_demo_%d.py" % os.getpid()
+    os.makedirs(os.path.join(REPO, "MUTATION"), exist_ok=True)  # demos locate the library relative to <root>/MUTATION/
+    tmp_demo = os.path.join(REPO, "MUTATION", "demo_%d.py" % os.getpid())
     open(tmp_demo, "w").write(demo_src)
     report = {"patch": os.path.basename(patch), "applies": False}
     try:
@@ -87,7 +88,7 @@ def main():
         report["checks"] = [run_check(c, a.tier) for c in a.checks.split(",") if c]
     finally:
         sh("git -C %s checkout -- ." % REPO)
-        os.unlink(tmp_demo)
+        shutil.rmtree(os.path.join(REPO, "MUTATION"), ignore_errors=True)
     report["valid_seed"] = bool(report.get("applies") and report["repo_tests"]["passed"] >= 1008 and report["repo_tests"]["failed"] == 0 and report["demo_without_patch_exit"] == 0 and report["demo_with_patch_exit"] != 0)
     report["caught_by"] = [c["check"] for c in report.get("checks", []) if c["exit"] == 1]
     print(json.dumps(report, indent=1))
